@@ -340,13 +340,16 @@ func c07Scenario(c c07cfg) *Scenario {
 					}
 					if k >= 0 {
 						for x := k; x <= jmax; x++ {
-							if states[x].kind == "stopped" {
+							switch states[x].kind {
+							case "stopped":
 								pred["503:"+states[x].msg] = true
-							} else {
+							case "running":
 								for o := range forwardedFrom(x) {
 									pred[o] = true
 								}
 							}
+							// (a later pause explains nothing: a request released by a stop is answered 503, it is not
+							// forwarded while the service is paused again)
 						}
 					}
 					// timeout
